@@ -415,7 +415,23 @@ static void tlv_deep(KSI_TLV *tlv, const unsigned char *el, size_t ellen, int de
 	vh_eval++;
 	if (r < 0) {
 		if (rc == KSI_OK) vh_viol("tlv.getNestedList:mistiled-content:accepted", xrep, "depth %d tag 0x%x: content of %zu bytes is not tiled by its declared element lengths but was expanded into %zu elements", depth, h.tag, h.dl, (size_t)KSI_TLVList_length(list));
-		else vh_count("tlv_mistiled_rejected", 1);
+		else {
+			/* the refused expansion must leave the element as it was: a second attempt fails again and the element still reports
+			 * and serializes exactly its encoded payload */
+			const unsigned char *p2 = NULL; size_t l2 = 0; unsigned char *ser = NULL; size_t sl = 0; int rc2;
+			vh_count("tlv_mistiled_rejected", 1);
+			list = NULL;
+			rc2 = KSI_TLV_getNestedList(tlv, &list);
+			if (rc2 == KSI_OK) vh_viol("tlv.getNestedList:mistiled-content:accepted-on-second-attempt", xrep, "depth %d tag 0x%x: expansion of mis-tiled content was refused, the repeated call succeeds with %zu elements", depth, h.tag, (size_t)KSI_TLVList_length(list));
+			rc2 = KSI_TLV_getRawValue(tlv, &p2, &l2);
+			if (rc2 != KSI_OK || l2 != h.dl || (l2 && memcmp(p2, pay, l2))) vh_viol("tlv.getNestedList:refused-expansion-changed-element", xrep, "depth %d tag 0x%x: after a refused expansion the element reports %zu payload bytes (res=0x%x), %zu encoded", depth, h.tag, l2, rc2, h.dl);
+			if (depth == 0 && h.canon) {
+				rc2 = KSI_TLV_serialize(tlv, &ser, &sl);
+				if (rc2 == KSI_OK && (sl != ellen || memcmp(ser, el, sl))) vh_viol("tlv.getNestedList:refused-expansion-changed-serialization", xrep, "tag 0x%x: after a refused expansion the element serializes to %zu bytes, %zu encoded (or bytes differ)", h.tag, sl, ellen);
+				KSI_free(ser);
+			}
+			vh_count("tlv_mistiled_rechecked", 1);
+		}
 		return;
 	}
 	if (rc != KSI_OK) {
